@@ -572,7 +572,14 @@ func newKernel(cfg Config) *Kernel {
 	return k
 }
 
+// RunHook, when set, is called at the end of every simulated run (the worker's
+// watchdog uses it: a hang is a single run that does not finish).
+var RunHook func()
+
 func (k *Kernel) finish() *Result {
+	if RunHook != nil {
+		RunHook()
+	}
 	k.res.TraceHash = k.hash
 	k.res.SimTime = k.now
 	k.res.IOOps = k.ioOps
